@@ -273,6 +273,34 @@ func pipelineCorpus() []*Prog {
 		add(x86.ADDQ(a, d))
 		add(x86.RET())
 	})
+	mk("values dying at an instruction with two implicit outputs (MULQ), others live across it", func(c *reg.Collection, add func(*ir.Instruction, error), lbl func(string)) {
+		a, b, t1, t2, t3 := c.GP64(), c.GP64(), c.GP64(), c.GP64(), c.GP64()
+		add(x86.MOVQ(operand.U32(3), a))
+		add(x86.MOVQ(operand.U32(4), b))
+		add(x86.MOVQ(a, t1))
+		add(x86.MOVQ(b, t2))
+		add(x86.MOVQ(a, reg.RAX))
+		add(x86.MULQ(b))
+		add(x86.MOVQ(reg.RAX, t3))
+		add(x86.ADDQ(reg.RDX, t3))
+		add(x86.ADDQ(t1, t3))
+		add(x86.ADDQ(t2, t3))
+		add(x86.RET())
+	})
+	mk("values dying at an exchange and at a division (two explicit / two implicit outputs)", func(c *reg.Collection, add func(*ir.Instruction, error), lbl func(string)) {
+		a, b, d, e := c.GP64(), c.GP64(), c.GP64(), c.GP64()
+		add(x86.MOVQ(operand.U32(3), a))
+		add(x86.MOVQ(operand.U32(4), b))
+		add(x86.MOVQ(operand.U32(9), d))
+		add(x86.XCHGQ(a, b))
+		add(x86.MOVQ(a, e))
+		add(x86.ADDQ(b, e))
+		add(x86.MOVQ(d, reg.RAX))
+		add(x86.XORQ(reg.RDX, reg.RDX))
+		add(x86.DIVQ(e))
+		add(x86.ADDQ(reg.RDX, reg.RAX))
+		add(x86.RET())
+	})
 	mk("32-bit self-move after binding (MOVL v,v)", func(c *reg.Collection, add func(*ir.Instruction, error), lbl func(string)) {
 		a := c.GP64()
 		add(x86.MOVQ(operand.I64(-1), a))
